@@ -2,14 +2,38 @@ module verifharness
 
 go 1.21
 
-require (
-	github.com/bartossh/Computantis/src v0.0.0
-	github.com/mr-tron/base58 v1.2.0
-)
+require github.com/bartossh/Computantis/src v0.0.0
 
 require (
+	github.com/allegro/bigcache v1.2.1
+	github.com/dgraph-io/badger/v4 v4.2.0
+	github.com/gofiber/fiber/v2 v2.52.5
+	github.com/heimdalr/dag v1.3.1
+	github.com/mr-tron/base58 v1.2.0
+	github.com/nats-io/nats.go v1.30.2
+	github.com/prometheus/client_golang v1.17.0
+	github.com/pterm/pterm v0.12.69
+	github.com/shamaton/msgpack/v2 v2.1.1
+	github.com/stretchr/testify v1.8.4
+	github.com/urfave/cli/v2 v2.25.4
+	github.com/valyala/fasthttp v1.51.0
+	github.com/vmihailenco/msgpack v4.0.4+incompatible
+	go.mongodb.org/mongo-driver v1.12.1
+	golang.org/x/crypto v0.21.0
+	golang.org/x/exp v0.0.0-20231006140011-7918f672742d
+	google.golang.org/grpc v1.58.3
+	google.golang.org/protobuf v1.33.0
+	gopkg.in/yaml.v2 v2.4.0
+	gotest.tools/v3 v3.5.0
+	atomicgo.dev/cursor v0.2.0 // indirect
+	atomicgo.dev/keyboard v0.2.9 // indirect
+	atomicgo.dev/schedule v0.1.0 // indirect
+	github.com/andybalholm/brotli v1.0.5 // indirect
+	github.com/beorn7/perks v1.0.1 // indirect
 	github.com/cespare/xxhash/v2 v2.2.0 // indirect
-	github.com/dgraph-io/badger/v4 v4.2.0 // indirect
+	github.com/containerd/console v1.0.3 // indirect
+	github.com/cpuguy83/go-md2man/v2 v2.0.3 // indirect
+	github.com/davecgh/go-spew v1.1.1 // indirect
 	github.com/dgraph-io/ristretto v0.1.1 // indirect
 	github.com/dustin/go-humanize v1.0.0 // indirect
 	github.com/emirpasic/gods v1.18.1 // indirect
@@ -19,17 +43,38 @@ require (
 	github.com/golang/protobuf v1.5.3 // indirect
 	github.com/golang/snappy v0.0.3 // indirect
 	github.com/google/flatbuffers v1.12.1 // indirect
+	github.com/google/go-cmp v0.5.9 // indirect
 	github.com/google/uuid v1.5.0 // indirect
-	github.com/heimdalr/dag v1.3.1 // indirect
+	github.com/gookit/color v1.5.4 // indirect
 	github.com/klauspost/compress v1.17.1 // indirect
+	github.com/kr/text v0.2.0 // indirect
+	github.com/lithammer/fuzzysearch v1.1.8 // indirect
+	github.com/mattn/go-colorable v0.1.13 // indirect
+	github.com/mattn/go-isatty v0.0.20 // indirect
+	github.com/mattn/go-runewidth v0.0.15 // indirect
+	github.com/matttproud/golang_protobuf_extensions v1.0.4 // indirect
+	github.com/nats-io/nats-server/v2 v2.9.23 // indirect
+	github.com/nats-io/nkeys v0.4.6 // indirect
+	github.com/nats-io/nuid v1.0.1 // indirect
 	github.com/pkg/errors v0.9.1 // indirect
-	github.com/shamaton/msgpack/v2 v2.1.1 // indirect
-	github.com/vmihailenco/msgpack v4.0.4+incompatible // indirect
-	go.mongodb.org/mongo-driver v1.12.1 // indirect
+	github.com/pmezard/go-difflib v1.0.0 // indirect
+	github.com/prometheus/client_model v0.5.0 // indirect
+	github.com/prometheus/common v0.44.0 // indirect
+	github.com/prometheus/procfs v0.12.0 // indirect
+	github.com/rivo/uniseg v0.4.4 // indirect
+	github.com/russross/blackfriday/v2 v2.1.0 // indirect
+	github.com/valyala/bytebufferpool v1.0.0 // indirect
+	github.com/valyala/tcplisten v1.0.0 // indirect
+	github.com/xo/terminfo v0.0.0-20220910002029-abceb7e1c41e // indirect
+	github.com/xrash/smetrics v0.0.0-20201216005158-039620a65673 // indirect
 	go.opencensus.io v0.22.5 // indirect
 	golang.org/x/net v0.23.0 // indirect
 	golang.org/x/sys v0.18.0 // indirect
-	google.golang.org/protobuf v1.33.0 // indirect
+	golang.org/x/term v0.18.0 // indirect
+	golang.org/x/text v0.14.0 // indirect
+	google.golang.org/appengine v1.6.8 // indirect
+	google.golang.org/genproto/googleapis/rpc v0.0.0-20230711160842-782d3b101e98 // indirect
+	gopkg.in/yaml.v3 v3.0.1 // indirect
 )
 
 replace github.com/bartossh/Computantis/src => /repo/src
